@@ -99,6 +99,70 @@ def dec (k c : Bytes) : Bytes :=
 
 end Toy
 
+/-! ## memory model: one arena, dst / src as (offset, length) windows (same primitives as C53) -/
+namespace Mem
+
+def rd (mem : Bytes) (off len : Nat) : Bytes := (mem.drop off).take len
+
+/-- overwrite `b.length` bytes at `off` (callers stay inside the arena) -/
+def wr (mem : Bytes) (off : Nat) (b : Bytes) : Bytes :=
+  mem.take off ++ b ++ mem.drop (off + b.length)
+
+/-- left-to-right chunk loop: `dst[o:o+c] = g o src[o:o+c]`, reading the *current* memory -/
+def chunkLoop (g : Nat → Bytes → Bytes) : List Nat → Nat → Bytes → Nat → Nat → Bytes
+  | [], _, mem, _, _ => mem
+  | c :: cs, o, mem, d, s => chunkLoop g cs (o + c) (wr mem (d + o) (g o (rd mem (s + o) c))) d s
+
+/-- the same computation on a separate copy of the source -/
+def mapChunks (g : Nat → Bytes → Bytes) : List Nat → Nat → Bytes → Bytes
+  | [], _, _ => []
+  | c :: cs, o, src => g o (src.take c) ++ mapChunks g cs (o + c) (src.drop c)
+
+def xorG (ks : Bytes) (o : Nat) (chunk : Bytes) : Bytes :=
+  xorBytes chunk ((ks.drop o ++ zeros chunk.length).take chunk.length)
+
+/-- the bytewise loop `for j := range tweak { dst[j] = src[j] ^ tweak[j] }` on the arena -/
+def xorLoop (ks : Bytes) (mem : Bytes) (d s n : Nat) : Bytes :=
+  chunkLoop (xorG ks) (List.replicate n 1) 0 mem d s
+
+end Mem
+
+structure Sl where
+  off : Nat
+  len : Nat
+deriving DecidableEq
+
+/-- `alias.InexactOverlap(x, y)`: both non-empty, different start, and
+    &x[0] ≤ &y[len-1] ∧ &y[0] ≤ &x[len-1] -/
+def inexactOverlapSl (x y : Sl) : Bool :=
+  if x.len = 0 || y.len = 0 || x.off = y.off then false
+  else decide (x.off ≤ y.off + (y.len - 1)) && decide (y.off ≤ x.off + (x.len - 1))
+
+/-- one body of the `for len(plaintext) > 0` loop on the arena, as written: bytewise
+    `ciphertext[j] = plaintext[j] ^ tweak[j]`, the block cipher in place on `ciphertext[:16]`,
+    bytewise `ciphertext[j] ^= tweak[j]`; the tweak lives in its own pooled array -/
+def blockStep (f : Bytes → Bytes) (tw mem : Bytes) (d s : Nat) : Bytes :=
+  let m1 := Mem.xorLoop tw mem d s 16
+  let m2 := Mem.wr m1 d (f (Mem.rd m1 d 16))
+  Mem.xorLoop tw m2 d d 16
+
+/-- the block loop: `k` blocks left, relative offset `o` -/
+def memLoop (f : Bytes → Bytes) : Nat → Nat → Bytes → Bytes → Nat → Nat → Bytes
+  | 0, _, _, mem, _, _ => mem
+  | k+1, o, tw, mem, d, s => memLoop f k (o + 16) (mul2 tw) (blockStep f tw mem (d + o) (s + o)) d s
+
+inductive MemOut where
+  | ok : Bytes → MemOut
+  | panic : MemOut
+deriving DecidableEq
+
+/-- Encrypt (f = E1) / Decrypt (f = D1) on the arena -/
+def cryptMem (f E2 : Bytes → Bytes) (mem : Bytes) (dst src : Sl) (sector : UInt64) : MemOut :=
+  if dst.len < src.len then .panic
+  else if src.len % 16 != 0 then .panic
+  else if inexactOverlapSl ⟨dst.off, src.len⟩ src then .panic
+  else .ok (memLoop f (src.len / 16) 0 (initTweak E2 sector) mem dst.off src.off)
+
 /-- `NewCipher(cipherFunc, key)` with a cipherFunc that accepts exactly the key lengths in `okLens`
     and yields block size `bs`: error iff either half is rejected or `bs ≠ 16` -/
 def newCipherOk (okLens : List Nat) (bs : Nat) (keyLen : Nat) : Bool :=
